@@ -25,6 +25,8 @@ var c02Defects = []string{
 	"chunk-data-altered", "chunk-sig-altered", "trailer-altered", "payload-hash-wrong",
 	// a query argument given twice, the unsigned value first (a server that verifies one occurrence and acts on the other)
 	"presign-dup-expires-first", "presign-dup-arg-first", "query-dup-arg-first",
+	// the secret the request is signed with was valid until the account's secret was changed a moment ago
+	"rotated-secret", "presign-rotated-secret",
 }
 
 type c02Prog struct {
@@ -192,6 +194,29 @@ func c02Apply(e *env.Env, fx *routes.Fixture, rt *routes.Route, p *c02Prog) (sg 
 		rq.Access, rq.Secret = "NOSUCHACCESSKEY00001", "whatever-secret-000000"
 	case "wrong-secret", "presign-wrong-secret":
 		rq.Access, rq.Secret = gw.RootAccess, "this-is-not-the-root-secret-0000000000"
+	case "rotated-secret", "presign-rotated-secret":
+		adm := fx.AdminC
+		g := p.GW
+		if g >= len(e.GWs) {
+			g = 0
+		}
+		warm := e.User(adm.Access, adm.Secret)
+		warm.GW = g
+		wr := s3c.ListBuckets()
+		wr.Mode = rq.Mode
+		if rq.Mode != s3c.ModePresign {
+			wr.Mode = s3c.ModeSigned
+		}
+		if w := warm.Do(wr); !w.Resp.OK() {
+			return nil, nil, false
+		}
+		ns := adm.Secret + "-rotated"
+		root := e.Root()
+		root.GW = g
+		if u := root.Do(s3c.AdminUpdateUser(adm.Access, &ns, nil, nil)); !u.Resp.OK() {
+			return nil, nil, false
+		}
+		rq.Access, rq.Secret = adm.Access, adm.Secret
 	case "scope-region":
 		rq.Region = "eu-west-7"
 	case "scope-service":
@@ -445,7 +470,7 @@ func c02DefectClass(d string) string {
 	switch d {
 	case "wrong-secret", "sig-digit", "signed-header-altered", "query-altered", "path-altered", "payload-altered",
 		"presign-wrong-secret", "presign-sig-digit", "presign-param-altered", "presign-expires-altered", "scope-date", "scope-service", "scope-terminator",
-		"presign-dup-arg-first", "query-dup-arg-first":
+		"presign-dup-arg-first", "query-dup-arg-first", "rotated-secret", "presign-rotated-secret":
 		return "signature-not-verified"
 	case "chunk-data-altered", "chunk-sig-altered", "trailer-altered", "payload-hash-wrong":
 		return "payload-integrity:" + d
